@@ -117,6 +117,8 @@ pub struct WorkerOut {
     pub exhausted: u64,
     pub timeout: u64,
     pub expected_abort: u64,
+    #[serde(default)]
+    pub soft_other: u64,
     pub label_hist: Vec<u64>,
     pub counters: Vec<u64>,
     pub nontrivial_hashes: Vec<u64>,
@@ -178,6 +180,16 @@ pub fn run_case(id: &str, tier: Tier, s: &Script) -> CaseResult {
                 Some(f) => {
                     if f.counters[ctr::ORDER_HASH] != r.counters[ctr::ORDER_HASH] {
                         orders_differ = true;
+                    }
+                    if (f.counters[exec::SOFT_COUNTER] > 0) != (r.counters[exec::SOFT_COUNTER] > 0) {
+                        let mut v = r.clone();
+                        v.outcome = Outcome::Violation;
+                        v.view = View::Layout as u32;
+                        v.msg = format!(
+                            "[layout-dependence] the same call sequence trips another property's view under one heap layout but not under another ({:#x} vs {:#x})",
+                            s.layout_seed, seed_j
+                        );
+                        return v;
                     }
                     if f.digest != r.digest {
                         let mut v = r.clone();
@@ -290,7 +302,7 @@ pub fn worker_k<K: Kind>(args: &[String]) -> i32 {
             for (i, c) in r.counters.iter().enumerate() {
                 if i == ctr::MAX_GROUP {
                     out.counters[i] = out.counters[i].max(*c);
-                } else if i != ctr::ORDER_HASH {
+                } else if i != ctr::ORDER_HASH && i != exec::SOFT_COUNTER {
                     out.counters[i] += *c;
                 }
             }
@@ -300,6 +312,9 @@ pub fn worker_k<K: Kind>(args: &[String]) -> i32 {
                         out.pass += 1;
                     } else {
                         out.expected_abort += 1;
+                    }
+                    if r.counters[exec::SOFT_COUNTER] > 0 {
+                        out.soft_other += 1;
                     }
                     if r.nontrivial {
                         let h = case_hash(&s);
@@ -646,6 +661,7 @@ pub fn launcher_k<K: Kind>(args: &[String]) -> i32 {
         merged.exhausted += wo.exhausted;
         merged.timeout += wo.timeout;
         merged.expected_abort += wo.expected_abort;
+        merged.soft_other += wo.soft_other;
         for i in 0..64 {
             merged.label_hist[i] += wo.label_hist[i];
         }
@@ -815,6 +831,7 @@ pub fn launcher_k<K: Kind>(args: &[String]) -> i32 {
                 "expected_abort": merged.expected_abort,
                 "violation": merged.violations,
                 "inconclusive_other_property": merged.other_view,
+                "passed_but_another_propertys_view_failed_and_was_tolerated": merged.soft_other,
                 "ended_by_known_finding": merged.known,
                 "arena_exhausted": merged.exhausted,
                 "watchdog": merged.timeout,
